@@ -199,15 +199,15 @@ Lemma pool_cases s j l s' : pool_step s j l = Some s' ->
   (pp s j = PExit /\ s' = set_pp s j PDone (pres s j)).
 Proof.
   unfold pool_step. intros H. destruct (pp s j) as [| |nt| |] eqn:Hp; try (destruct l; discriminate).
-  - destruct l as [| | |e|e timed| | | | | | | | | | | | | | | | | | | | |]; try discriminate.
+  - destruct l as [| | |e|e timed| | | | | | | | | | | | | | | | | | | | | |]; try discriminate.
     + destruct e as [| |k|]; try discriminate. destruct (Nat.eqb j k && pf s j) eqn:E; [|discriminate].
       apply andb_true_iff in E as [_ E]. inversion H. left. auto.
     + destruct e as [| |k|]; try discriminate. destruct timed; [|discriminate].
       destruct (Nat.eqb j k && negb (pf s j)); [|discriminate]. inversion H. right. left. auto.
-  - destruct l as [| | | | |e b| | | | | | | | | | | | | | | | | | | |]; try discriminate.
+  - destruct l as [| | | | |e b| | | | | | | | | | | | | | | | | | | | |]; try discriminate.
     destruct e as [| |k|]; try discriminate. destruct (Nat.eqb j k && implb b nt) eqn:E; [|discriminate].
     apply andb_true_iff in E as [_ E]. inversion H. right. right. left. exists nt, b. auto.
-  - destruct l as [| | | | | | | | |r| | | | | | | | | | | | | | | |]; try discriminate.
+  - destruct l as [| | | | | | | | |r| | | | | | | | | | | | | | | | |]; try discriminate.
     destruct r; [discriminate|]. inversion H. right. right. right. auto.
 Qed.
 
